@@ -585,3 +585,14 @@ def split_or_return_guards(func: ast.AST) -> ast.AST:
         return out
     f2.body = fix(f2.body)
     return f2
+
+
+def statements_before(body, node):
+    """the top-level statements of `body` that come before the one containing `node` (by position: statements of an inlined helper keep the
+    helper's line numbers, so line numbers do not order them)"""
+    out = []
+    for st in body:
+        if any(x is node for x in ast.walk(st)):
+            return out
+        out.append(st)
+    return out
